@@ -49,8 +49,11 @@ type Conn struct {
 	timeoutReq  bool
 	onBlock     func()
 
-	// ChunkRead, if > 0, limits how many bytes one Read returns (segmentation experiments).
+	// chunks limits how many bytes the following Reads return (segmentation experiments).
 	chunks []int
+
+	srvOff  int
+	srvStop bool
 }
 
 func New() *Conn {
@@ -175,9 +178,11 @@ func (c *Conn) Write(p []byte) (int, error) {
 		}
 		c.w = append(c.w, p[:n]...)
 		c.broken = true
+		c.cond.Broadcast()
 		return n, ErrBroken
 	}
 	c.w = append(c.w, p...)
+	c.cond.Broadcast()
 	return len(p), nil
 }
 
@@ -237,6 +242,39 @@ func (c *Conn) SetWriteDeadline(t time.Time) error {
 }
 
 // ---- harness side -------------------------------------------------------
+
+// ServerRead is the server's view of the client's writes: it blocks until the client has written
+// more, and returns io.EOF once the client closed the connection (or the server side was stopped).
+func (c *Conn) ServerRead(p []byte) (int, error) {
+	c.mu.Lock()
+	defer c.mu.Unlock()
+	for {
+		if c.srvOff < len(c.w) {
+			n := copy(p, c.w[c.srvOff:])
+			c.srvOff += n
+			return n, nil
+		}
+		if c.closed || c.srvStop {
+			return 0, io.EOF
+		}
+		c.cond.Wait()
+	}
+}
+
+// StopServer makes a blocked ServerRead return io.EOF.
+func (c *Conn) StopServer() {
+	c.mu.Lock()
+	c.srvStop = true
+	c.mu.Unlock()
+	c.cond.Broadcast()
+}
+
+type serverSide struct{ c *Conn }
+
+func (s serverSide) Read(p []byte) (int, error) { return s.c.ServerRead(p) }
+
+// ServerReader returns an io.Reader over what the client writes.
+func (c *Conn) ServerReader() io.Reader { return serverSide{c} }
 
 // Deliver makes server bytes available to the client.
 func (c *Conn) Deliver(b []byte) {
